@@ -1,5 +1,26 @@
-import PrimaiteModel.Model.Acl
+import PrimaiteModel.Model.AclObj
 open Primaite Primaite.Acl
+
+/-!
+Line protocol of the C07 driver.  State = a device (seven list objects) and the list currently addressed.
+Round-1 lines (`new`, `add`, `remove`, `check`, `dump`) keep their meaning and address the current list.
+
+  new <slots> <imp>                          current list := constructor with max_acl_rules = slots + 1
+  obj <max_acl_rules> <imp|->                current list := constructor (implicit action optional)
+  fw <max_acl_rules>                         device := a firewall as built (router list + six), current := router
+  rt <max_acl_rules>                         current list := a router's list as built (default rules at 22, 23)
+  sel <list>                                 address another list of the device
+  add <pos> <rule…> / remove <pos>           ok | raised (ValueError) | index-error
+  check <proto> <sip> <dip> <sp|-> <dp|->    verdict + decider on a packet
+  frame <mode> <proto> <sip> <dip> <tsp> <tdp> <usp> <udp> <icmp> <arp>
+                                             mode `list`: is_permitted(frame); mode `router`: subject_to_acl first
+  wf <proto> <tsp> <tdp> <usp> <udp> <icmp>  would Frame.__init__ accept it
+  setimp <imp> / setmax <n>                  attribute assignments
+  dump                                       slots | implicit_action implicit_rule.match_count
+  describe                                   implicit_action implicit_rule.action implicit_rule.match_count max_acl_rules num_rules
+  show                                       rows of show(): index:rule …
+  dumpall                                    `dump` + `describe` of all seven lists
+-/
 
 def parseAction : String → Option Action
   | "PERMIT" => some .permit | "DENY" => some .deny | _ => none
@@ -9,6 +30,13 @@ def showProto : Proto → String
   | .none => "none" | .tcp => "tcp" | .udp => "udp" | .icmp => "icmp"
 def showAction : Action → String | .permit => "PERMIT" | .deny => "DENY"
 
+def parseList : String → Option ListId
+  | "router" => some .router | "intIn" => some .intIn | "intOut" => some .intOut | "dmzIn" => some .dmzIn
+  | "dmzOut" => some .dmzOut | "extIn" => some .extIn | "extOut" => some .extOut | _ => none
+def showList : ListId → String
+  | .router => "router" | .intIn => "intIn" | .intOut => "intOut" | .dmzIn => "dmzIn"
+  | .dmzOut => "dmzOut" | .extIn => "extIn" | .extOut => "extOut"
+
 def showRule (r : Rule) : String :=
   s!"{showAction r.action},{showOpt showProto r.proto},{showOpt showIp r.srcIp},{showOpt showIp r.srcWc}," ++
   s!"{showOpt showIp r.dstIp},{showOpt showIp r.dstWc},{showOpt toString r.srcPort},{showOpt toString r.dstPort},{r.hits}"
@@ -16,42 +44,114 @@ def showRule (r : Rule) : String :=
 def dump (a : Acl) : String :=
   " ".intercalate (a.rules.map (showOpt showRule)) ++ s!" | {showAction a.implicit} {a.implicitHits}"
 
-def step (a : Acl) : List String → Acl × String
+def describeLine (o : AclObj) : String :=
+  let d := o.describe
+  s!"{showAction d.implicitAction} {showAction d.implicitRuleAction} {d.implicitRuleHits} {d.maxAclRules} {o.numRules}"
+
+def showLine (o : AclObj) : String :=
+  " ".intercalate (o.showRows.map (fun (i, r) =>
+    s!"{i}:{showRule { r with srcPort := showPortCell r.srcPort, dstPort := showPortCell r.dstPort }}"))
+
+def showEdit : EditOut → String
+  | .ok => "ok" | .valueError => "raised" | .indexError => "index-error"
+
+def showVerdict (v : Bool) (d : Decider) : String :=
+  let ds := match d with
+    | .rule i => toString i
+    | .implicit => "implicit"
+  s!"{showBool v} {ds}"
+
+structure St where
+  dev : Device
+  cur : ListId
+
+def St.obj (s : St) : AclObj := s.dev s.cur
+def St.put (s : St) (o : AclObj) : St := { s with dev := s.dev.set s.cur o }
+
+def parsePorts (a b : String) : Option (Option (Nat × Nat)) :=
+  match parseOpt String.toNat? a, parseOpt String.toNat? b with
+  | some (some x), some (some y) => some (some (x, y))
+  | some none, some none => some none
+  | _, _ => none
+
+def step (s : St) : List String → St × String
   | ["new", slots, imp] =>
     match slots.toNat?, parseAction imp with
-    | some n, some i => (Acl.empty n i, "ok")
-    | _, _ => (a, "bad-op")
+    | some n, some i => (s.put (AclObj.construct (some i) ((n : Int) + 1)), "ok")
+    | _, _ => (s, "bad-op")
+  | ["obj", mx, imp] =>
+    match mx.toInt?, parseOpt parseAction imp with
+    | some n, some i => (s.put (AclObj.construct i n), "ok")
+    | _, _ => (s, "bad-op")
+  | ["fw", mx] =>
+    match mx.toInt? with
+    | some n => ({ dev := Device.firewall n, cur := .router }, "ok")
+    | none => (s, "bad-op")
+  | ["rt", mx] =>
+    match mx.toInt? with
+    | some n => (s.put (routerList n), "ok")
+    | none => (s, "bad-op")
+  | ["sel", l] =>
+    match parseList l with
+    | some i => ({ s with cur := i }, "ok")
+    | none => (s, "bad-op")
   | ["add", pos, act, pr, sip, swc, dip, dwc, sp, dp] =>
     match pos.toInt?, parseAction act, parseOpt parseProto pr, parseOpt parseIp sip, parseOpt parseIp swc,
           parseOpt parseIp dip, parseOpt parseIp dwc, parseOpt String.toNat? sp, parseOpt String.toNat? dp with
     | some pos, some act, some pr, some sip, some swc, some dip, some dwc, some sp, some dp =>
-      if pos < 0 then (a, "raised") else
-      match addRule a { action := act, proto := pr, srcIp := sip, srcWc := swc, dstIp := dip, dstWc := dwc,
-                        srcPort := sp, dstPort := dp } pos.toNat with
-      | some a' => (a', "ok")
-      | none => (a, "raised")
-    | _, _, _, _, _, _, _, _, _ => (a, "bad-op")
+      let (o, e) := s.obj.addRule { action := act, proto := pr, srcIp := sip, srcWc := swc, dstIp := dip, dstWc := dwc,
+                                     srcPort := sp, dstPort := dp } pos
+      (s.put o, showEdit e)
+    | _, _, _, _, _, _, _, _, _ => (s, "bad-op")
   | ["remove", pos] =>
     match pos.toInt? with
     | some pos =>
-      if pos < 0 then (a, "raised") else
-      match removeRule a pos.toNat with
-      | some a' => (a', "ok")
-      | none => (a, "raised")
-    | none => (a, "bad-op")
+      let (o, e) := s.obj.removeRule pos
+      (s.put o, showEdit e)
+    | none => (s, "bad-op")
   | ["check", pr, sip, dip, sp, dp] =>
     match parseProto pr, parseIp sip, parseIp dip, parseOpt String.toNat? sp, parseOpt String.toNat? dp with
     | some pr, some sip, some dip, some sp, some dp =>
       let ports := match sp, dp with
         | some s, some d => some (s, d)
         | _, _ => none
-      let (v, d, a') := isPermitted a { proto := pr, srcIp := sip, dstIp := dip, ports := ports }
-      let ds := match d with
-        | .rule i => toString i
-        | .implicit => "implicit"
-      (a', s!"{showBool v} {ds}")
-    | _, _, _, _, _ => (a, "bad-op")
-  | ["dump"] => (a, dump a)
-  | _ => (a, "bad-op")
+      let (v, d, o) := s.obj.isPermitted { proto := pr, srcIp := sip, dstIp := dip, ports := ports }
+      (s.put o, showVerdict v d)
+    | _, _, _, _, _ => (s, "bad-op")
+  | ["frame", mode, pr, sip, dip, tsp, tdp, usp, udp, icmp, arp] =>
+    match parseProto pr, parseIp sip, parseIp dip, parsePorts tsp tdp, parsePorts usp udp, parseBool icmp, parseBool arp with
+    | some pr, some sip, some dip, some tcp, some udp, some icmp, some arp =>
+      let f : Frame := { proto := pr, srcIp := sip, dstIp := dip, tcp := tcp, udp := udp, icmp := icmp, arpPayload := arp }
+      if mode = "router" then
+        let (v, d, o) := s.obj.routerVerdict f
+        match d with
+        | some d => (s.put o, showVerdict v d)
+        | none => (s.put o, s!"{showBool v} exempt")
+      else if mode = "list" then
+        let (v, d, o) := s.obj.isPermitted f.toPacket
+        (s.put o, showVerdict v d)
+      else (s, "bad-op")
+    | _, _, _, _, _, _, _ => (s, "bad-op")
+  | ["wf", pr, tsp, tdp, usp, udp, icmp] =>
+    match parseProto pr, parsePorts tsp tdp, parsePorts usp udp, parseBool icmp with
+    | some pr, some tcp, some udp, some icmp =>
+      let f : Frame := { proto := pr, srcIp := 0, dstIp := 0, tcp := tcp, udp := udp, icmp := icmp, arpPayload := false }
+      (s, showBool f.wf)
+    | _, _, _, _ => (s, "bad-op")
+  | ["setimp", imp] =>
+    match parseAction imp with
+    | some a => (s.put (s.obj.setImplicit a), "ok")
+    | none => (s, "bad-op")
+  | ["setmax", n] =>
+    match n.toInt? with
+    | some n => (s.put (s.obj.setMaxRules n), "ok")
+    | none => (s, "bad-op")
+  | ["dump"] => (s, dump s.obj.core)
+  | ["describe"] => (s, describeLine s.obj)
+  | ["show"] => (s, showLine s.obj)
+  | ["dumpall"] =>
+    (s, " || ".intercalate (ListId.all.map (fun i => s!"{showList i}: {dump (s.dev i).core} # {describeLine (s.dev i)}")))
+  | _ => (s, "bad-op")
 
-def main : IO Unit := runDriver (Acl.empty 24 .deny) step
+def main : IO Unit :=
+  runDriver { dev := fun _ => AclObj.construct (some .deny) 25, cur := .router } step
